@@ -1,0 +1,15 @@
+//go:build verif
+
+// Contracts for contract-based verification (/verif). Comment-only: with or without the
+// build tag "verif" this file adds nothing to the compiled package.
+
+package extensions
+
+// The flag is written by Enable / Disable only, from the sandbox builder and from SandboxContext.Init
+// (DisableViaMagicLayer), never while an init or invoke is being orchestrated: within one verified call
+// every AreEnabled() returns the same value.
+//@ spec extEnabled() bool
+//@ func AreEnabled
+//@   trusted the atomic flag is stable for the duration of one orchestration call (written only by the sandbox builder and at Init, which are serialised with init/invoke handling)
+//@   modifies nothing
+//@   ensures [stable] r0 == extEnabled()
